@@ -30,7 +30,7 @@ fn run_one(host: &mut Popen, sc: &Scenario, script: Vec<u32>, rng: Option<Rng>, 
     host.stdin = fds[IN].map(|fd| unsafe { File::from_raw_fd(fd) });
     host.stdout = fds[OUT].map(|fd| unsafe { File::from_raw_fd(fd) });
     host.stderr = fds[ERR].map(|fd| unsafe { File::from_raw_fd(fd) });
-    let input = if sc.piped[IN] { Some(stream_bytes(IN, sc.unit, 1, sc.input_units)) } else { None };
+    let input = if sc.piped[IN] { Some(sim.sbytes(IN, 1, sc.input_units)) } else { None };
     let mut comm = Some(host.communicate_start(input));
     let mut eff_limit: Option<usize> = None;
     let mut eff_tlim: Option<u64> = None;
@@ -49,12 +49,31 @@ fn run_one(host: &mut Popen, sc: &Scenario, script: Vec<u32>, rng: Option<Rng>, 
         sim.log(json!({"e":"call","limit":eff_limit.map(|x| x as i64).unwrap_or(-1),
             "tl": eff_tlim.map(|t| json!([t / 1_000_000_000, t % 1_000_000_000])).unwrap_or(json!([-1, 0])),
             "now": sim.now_pair()}));
-        let r = catch_unwind(AssertUnwindSafe(|| c.read()));
+        for v in sim.read_this_call.iter_mut() {
+            v.clear();
+        }
+        let mut text_ok = true;
+        let r = if sc.text {
+            // the text-returning variant: it must equal the lossy UTF-8 decoding of the bytes the kernel handed
+            // over in this call; the ids logged are those bytes (what read() would have returned)
+            let r = catch_unwind(AssertUnwindSafe(|| c.read_string()));
+            match r {
+                Ok(Ok((o, e))) => {
+                    let exp = |s: usize| String::from_utf8_lossy(&sim.read_this_call[s]).into_owned();
+                    text_ok = o.as_ref().map_or(true, |x| *x == exp(OUT)) && e.as_ref().map_or(true, |x| *x == exp(ERR));
+                    Ok(Ok((o.map(|_| sim.read_this_call[OUT].clone()), e.map(|_| sim.read_this_call[ERR].clone()))))
+                }
+                Ok(Err(ce)) => Ok(Err(ce)),
+                Err(p) => Err(p),
+            }
+        } else {
+            catch_unwind(AssertUnwindSafe(|| c.read()))
+        };
         let unit = sc.unit;
         let dec = |v: &Option<Vec<u8>>| v.as_ref().map(|b| json!(decode(b, unit))).unwrap_or(json!([]));
         match r {
             Ok(Ok((o, e))) => {
-                sim.log(json!({"e":"ret","kind":"ok","ho":o.is_some(),"he":e.is_some(),"out":dec(&o),"err":dec(&e),"now":sim.now_pair()}));
+                sim.log(json!({"e":"ret","kind":"ok","ho":o.is_some(),"he":e.is_some(),"out":dec(&o),"err":dec(&e),"now":sim.now_pair(),"text_ok":text_ok}));
             }
             Ok(Err(ce)) => {
                 let kind = if ce.error.kind() == std::io::ErrorKind::TimedOut && ce.error.raw_os_error().is_none() {
@@ -64,10 +83,10 @@ fn run_one(host: &mut Popen, sc: &Scenario, script: Vec<u32>, rng: Option<Rng>, 
                 };
                 sim.log(json!({"e":"ret","kind":kind,"errno":ce.error.raw_os_error().unwrap_or(0),
                     "ho":ce.capture.0.is_some(),"he":ce.capture.1.is_some(),
-                    "out":dec(&ce.capture.0),"err":dec(&ce.capture.1),"now":sim.now_pair()}));
+                    "out":dec(&ce.capture.0),"err":dec(&ce.capture.1),"now":sim.now_pair(),"text_ok":true}));
             }
             Err(_) => {
-                sim.log(json!({"e":"ret","kind":"panic","ho":false,"he":false,"out":[],"err":[],"now":sim.now_pair()}));
+                sim.log(json!({"e":"ret","kind":"panic","ho":false,"he":false,"out":[],"err":[],"now":sim.now_pair(),"text_ok":true}));
                 comm = None;
                 break;
             }
